@@ -2,7 +2,7 @@
    the routes commute, for annotation expressions of unbounded nesting. *)
 From Coq Require Import NArith ZArith List Bool.
 Import ListNotations.
-Require Import PV.Annot.Routes PV.Annot.DefSig.
+Require Import PV.Annot.Forms PV.Gen.Annot PV.Annot.Routes PV.Annot.DefSig.
 
 (* induction principle for the nested inductive *)
 Section AexprInd.
@@ -66,107 +66,90 @@ Proof.
   rewrite !orb_false_r, orb_true_r. cbn [orb app]. rewrite !app_nil_r. reflexivity.
 Qed.
 
-Definition clean (e : aexpr) : bool :=
-  negb (has_star_unpack e || has_nested_literal e || has_final_classvar e).
-
-Lemma guard_clean : forall e, routes_guard e = clean e.
+Lemma map_eq_Forall : forall (A B : Type) (f g : A -> B) l,
+  Forall (fun x => f x = g x) l -> map f l = map g l.
 Proof.
-  intros e. unfold routes_guard, clean.
-  destruct (has_star_unpack e), (has_nested_literal e), (has_final_classvar e); reflexivity.
+  intros A B f g l HF. induction HF as [|x l Hx HF IH]; cbn; [reflexivity|]. now f_equal.
 Qed.
 
-Lemma clean_list : forall es,
-  (existsb has_star_unpack es || existsb has_nested_literal es || existsb has_final_classvar es) = false ->
-  forall x, In x es -> clean x = true.
-Proof.
-  intros es H x Hx. apply orb_false_iff in H. destruct H as [H H3]. apply orb_false_iff in H. destruct H as [H1 H2].
-  unfold clean. apply negb_true_iff. apply orb_false_iff. split; [apply orb_false_iff; split|].
-  - destruct (has_star_unpack x) eqn:E; [|reflexivity].
-    rewrite <- H1. symmetry. apply existsb_exists. eauto.
-  - destruct (has_nested_literal x) eqn:E; [|reflexivity].
-    rewrite <- H2. symmetry. apply existsb_exists. eauto.
-  - destruct (has_final_classvar x) eqn:E; [|reflexivity].
-    rewrite <- H3. symmetry. apply existsb_exists. eauto.
-Qed.
+(* ---- obligations on the generated tables (re-checked on every run) -------- *)
 
-Lemma map_eq_Forall : forall (A B : Type) (f g : A -> B) (P : A -> Prop) l,
-  Forall (fun x => P x -> f x = g x) l -> (forall x, In x l -> P x) -> map f l = map g l.
-Proof.
-  intros A B f g P l HF HP. induction HF as [|x l Hx HF IH]; cbn; [reflexivity|].
-  f_equal; [apply Hx, HP; now left|apply IH; intros y Hy; apply HP; now right].
-Qed.
-
-Ltac split3 H := apply negb_true_iff in H; apply orb_false_iff in H; destruct H as [H ?H3];
-  apply orb_false_iff in H; destruct H as [?H1 ?H2].
-
-Lemma clean_of : forall a b c, a = false -> b = false -> c = false -> negb (a || b || c) = true.
-Proof. intros; subst; reflexivity. Qed.
-
-Lemma routes_commute_clean : forall star e, clean e = true -> route_rt star e = route_ast e.
-Proof.
-  intros star. induction e using aexpr_ind'; intros G; cbn [route_rt route_ast]; try reflexivity.
-  - (* Optional *) rewrite IHe by exact G. symmetry. apply unite_optional_comm.
-  - (* Union *) f_equal. unfold clean in G. cbn in G. apply negb_true_iff in G.
-    eapply map_eq_Forall; [exact H|]. now apply clean_list.
-  - (* Or *) unfold clean in *. cbn in G. split3 G.
-    apply orb_false_iff in H1, H2, H3. destruct H1, H2, H3.
-    rewrite IHe1, IHe2; [reflexivity| |]; apply clean_of; assumption.
-  - (* Generic *) f_equal. unfold clean in G. cbn in G. apply negb_true_iff in G.
-    eapply map_eq_Forall; [exact H|]. now apply clean_list.
-  - (* TupleVar *) rewrite IHe by exact G. reflexivity.
-  - (* TupleFixed *) do 2 f_equal. unfold clean in G. cbn in G. apply negb_true_iff in G.
-    eapply map_eq_Forall; [exact H|]. now apply clean_list.
-  - (* StarTuple *) unfold clean in G. cbn in G. discriminate.
-  - (* UnpackTuple *) unfold clean in *. cbn in G. split3 G.
-    apply orb_false_iff in H1, H2, H3. destruct H1 as [A1 B1], H2 as [A2 B2], H3 as [A3 B3].
-    rewrite IHe by (apply clean_of; assumption). do 3 f_equal.
-    eapply map_eq_Forall; [exact H|]. apply clean_list. now rewrite A1, A2, A3.
-  - (* LitNested *) unfold clean in G. cbn in G. rewrite ?orb_true_r in G. discriminate.
-  - (* Type *) rewrite IHe by exact G. reflexivity.
-  - (* CallableAny *) rewrite IHe by exact G. reflexivity.
-  - (* Callable *) unfold clean in *. cbn in G. split3 G.
-    apply orb_false_iff in H1, H2, H3. destruct H1 as [A1 B1], H2 as [A2 B2], H3 as [A3 B3].
-    rewrite IHe by (apply clean_of; assumption). f_equal.
-    eapply map_eq_Forall; [exact H|]. apply clean_list. now rewrite A1, A2, A3.
-  - (* Annotated *) rewrite IHe by exact G. reflexivity.
-  - (* Final *) unfold clean in G. cbn in G. rewrite ?orb_true_r in G. discriminate.
-  - (* ClassVar *) unfold clean in G. cbn in G. rewrite ?orb_true_r in G. discriminate.
-Qed.
-
-
-Theorem routes_commute_partial : forall e, routes_guard e = true ->
-  route_runtime e = route_ast e /\ route_ast (EStr e) = route_ast e /\ route_visitor e = route_ast e /\
-  route_visitor (EStr e) = route_ast e /\ route_runtime (EStr e) = route_ast e.
-Proof.
-  intros e G. rewrite guard_clean in G.
-  repeat split; try reflexivity; apply routes_commute_clean; exact G.
-Qed.
-
-Definition routes_commute_full_statement : Prop :=
-  forall e, route_runtime e = route_ast e /\ route_visitor e = route_ast e.
-
-Lemma routes_refuted_final : route_runtime (EFinal (EClass 1)) = TTyped 1 /\ route_ast (EFinal (EClass 1)) = TErr.
-Proof. split; reflexivity. Qed.
-
-Lemma routes_refuted_nested_literal :
-  route_runtime (ELitNested [1%Z] [2%Z]) = TUnion false [TLit 1; TLit 2] /\ route_ast (ELitNested [1%Z] [2%Z]) = TErr.
-Proof. split; reflexivity. Qed.
-
-Lemma routes_refuted_star :
-  route_runtime (EStarTuple [EClass 1] (EClass 2)) = TSeq [(false, TTyped 1); (false, TGeneric tuple_c [TTyped 2])] /\
-  route_ast (EStarTuple [EClass 1] (EClass 2)) = TCrash /\
-  route_visitor (EStarTuple [EClass 1] (EClass 2)) = TSeq [(false, TAny)].
+(* both dispatch functions do the same thing for every form they share *)
+Lemma tables_agree :
+  act ast_table FUnion = act rt_table FUnion /\ act ast_table FLiteral = act rt_table FLiteral /\
+  act ast_table FTupleVar = act rt_table FTupleVar /\ act ast_table FTupleEmpty = act rt_table FTupleEmpty /\
+  act ast_table FTupleFixed = act rt_table FTupleFixed /\ act ast_table FType = act rt_table FType /\
+  act ast_table FAnnotated = act rt_table FAnnotated /\ act ast_table FFinal = act rt_table FFinal /\
+  act ast_table FClassVar = act rt_table FClassVar /\ act ast_table FUnpack = act rt_table FUnpack /\
+  act ast_table FCallable = act rt_table FCallable /\ act ast_table FGenericClass = act rt_table FGenericClass.
 Proof. repeat split; reflexivity. Qed.
 
-Lemma routes_commute_full_statement_refuted : ~ routes_commute_full_statement.
-Proof. intros H. destruct (H (EFinal (EClass 1))) as [H1 _]. vm_compute in H1. discriminate. Qed.
+(* Optional is a union with None on the AST route; typing makes it a Union for the runtime route *)
+Lemma tables_optional :
+  (exists b, act ast_table FOptional = Some (ActOptional b)) /\ act rt_table FUnion = Some ActUniteMembers.
+Proof. split; [eexists|]; reflexivity. Qed.
+
+(* nested Literal is flattened by the AST route as typing flattens it for the runtime route;
+   a starred member is desugared to Unpack on both *)
+Lemma tables_literal_star :
+  act ast_table FLiteral = Some (ActUniteLiterals true) /\ ast_visit_starred = true /\
+  act rt_table FTupleFixed = Some ActSeqMembers /\ act rt_table FUnpack = Some ActUnpacked.
+Proof. repeat split; reflexivity. Qed.
+
+Lemma gen_def_kind_order : def_kind_order = [PosOnly; PosOrKw; VarPos; KwOnly; VarKw].
+Proof. reflexivity. Qed.
+
+Lemma gen_rt_kind : forall k pr,
+  rt_kind k pr = if (match k with PosOrKw => true | _ => false end) && pr then (PosOnly, true) else (k, false).
+Proof. intros k pr. destruct k, pr; reflexivity. Qed.
+
+Lemma gen_wrap_spec : forall k v,
+  gen_wrap k v = match k with VarPos => TGeneric tuple_c [v] | VarKw => TGeneric dict_c [TTyped str_c; v] | _ => v end.
+Proof. intros k v. destruct k; reflexivity. Qed.
+
+(* full strength: every annotation expression of the vocabulary, any nesting *)
+Theorem routes_commute : forall e, route_runtime e = route_ast e.
+Proof.
+  induction e using aexpr_ind'; cbn [route_runtime route_ast]; try reflexivity.
+  - (* Optional *) rewrite IHe.
+    transitivity (unite [route_ast e; TNone]); [reflexivity|].
+    transitivity (unite [TNone; route_ast e]); [symmetry; apply unite_optional_comm|reflexivity].
+  - (* Union *) rewrite (map_eq_Forall _ _ _ _ _ H). reflexivity.
+  - (* Or *) rewrite IHe1, IHe2. reflexivity.
+  - (* Generic *) rewrite (map_eq_Forall _ _ _ _ _ H). reflexivity.
+  - (* TupleVar *) rewrite IHe. reflexivity.
+  - (* TupleFixed *) rewrite (map_eq_Forall _ _ _ _ _ H). reflexivity.
+  - (* StarTuple *) rewrite IHe, (map_eq_Forall _ _ _ _ _ H). reflexivity.
+  - (* UnpackTuple *) rewrite IHe, (map_eq_Forall _ _ _ _ _ H). reflexivity.
+  - (* Type *) rewrite IHe. reflexivity.
+  - (* CallableAny *) rewrite IHe. reflexivity.
+  - (* Callable *) rewrite IHe, (map_eq_Forall _ _ _ _ _ H). reflexivity.
+  - (* Annotated *) rewrite IHe. reflexivity.
+  - (* Final *) rewrite IHe. reflexivity.
+  - (* ClassVar *) rewrite IHe. reflexivity.
+Qed.
+
+Theorem routes_commute_all : forall e,
+  route_runtime e = route_ast e /\ route_ast (EStr e) = route_ast e /\ route_visitor e = route_ast e /\
+  route_visitor (EStr e) = route_ast e /\ route_runtime (EStr e) = route_ast e.
+Proof. intros e. repeat split; try reflexivity; apply routes_commute. Qed.
+
+(* the forms that used to diverge, on the repaired tree *)
+Lemma routes_repaired_forms :
+  route_ast (EFinal (EClass 1)) = TTyped 1 /\ route_ast (EClassVar (EOptional (EClass 1))) = TUnion true [TTyped 1] /\
+  route_ast (ELitNested [1%Z] [2%Z]) = TUnion false [TLit 1; TLit 2] /\
+  route_runtime (ELitNested [1%Z] [2%Z]) = TUnion false [TLit 1; TLit 2] /\
+  route_ast (EStarTuple [EClass 1] (EClass 2)) = TSeq [(false, TTyped 1); (true, TTyped 2)] /\
+  route_runtime (EStarTuple [EClass 1] (EClass 2)) = TSeq [(false, TTyped 1); (true, TTyped 2)] /\
+  route_ast (EStarTuple [EClass 1] (EClass 2)) = route_ast (EUnpackTuple [EClass 1] (EClass 2)).
+Proof. repeat split; reflexivity. Qed.
 
 Definition ex_annot : aexpr :=
   EOptional (EGeneric 5 [EUnion [EClass 1; EStr (ETupleFixed [EClass 2; ELiteral [1%Z; 2%Z]])];
                          ECallable [EOr (EClass 1) ENone] (EType (EAnnotated (ETupleVar EAny) 7))]).
 
-Lemma routes_guard_inhabited :
-  routes_guard ex_annot = true /\
+Lemma routes_example :
+  route_runtime ex_annot = route_ast ex_annot /\
   route_ast ex_annot =
     TUnion true [TGeneric 5 [TUnion false [TTyped 1; TSeq [(false, TTyped 2); (false, TUnion false [TLit 1; TLit 2])]];
                              TCall [TUnion true [TTyped 1]] TAny]].
@@ -182,31 +165,28 @@ Proof.
   induction ps as [|p ps IH]; intros acc H; cbn.
   - now rewrite app_nil_r.
   - rewrite IH by (intros q Hq; apply H; now right).
-    unfold rt_step. rewrite (H p) by now left. rewrite andb_false_r. now rewrite <- app_assoc.
+    unfold rt_step. rewrite (H p) by now left. rewrite gen_rt_kind, andb_false_r. now rewrite <- app_assoc.
 Qed.
 
 Lemma param_norm_eq : forall p, param_ok p = true ->
   norm_sparam (def_param p) = norm_sparam (mkSParam (p_name p) (p_kind p) (p_default p) (rt_type p)).
 Proof.
-  intros [n k d a pr] H. unfold param_ok in H. cbn in H. apply andb_true_iff in H. destruct H as [_ H].
-  unfold def_param, rt_type. cbn.
+  intros [n k d a pr] H. unfold def_param, rt_type. cbn.
   destruct a as [e|].
-  - destruct (routes_commute_partial e H) as (H1 & _ & H3 & _). rewrite H3, H1. reflexivity.
+  - reflexivity.
   - unfold norm_sparam. cbn. destruct k; reflexivity.
 Qed.
 
 Theorem def_sig_eq_runtime_sig_partial : forall ps r,
-  forallb param_ok ps = true -> match r with Some e => routes_guard e | None => true end = true ->
+  forallb param_ok ps = true ->
   map norm_sparam (sig_from_def ps) = map norm_sparam (sig_from_runtime ps) /\
   ret_from_def r = ret_from_runtime r.
 Proof.
-  intros ps r H Hr. rewrite forallb_forall in H. split.
+  intros ps r H. rewrite forallb_forall in H. split.
   - unfold sig_from_def, sig_from_runtime. rewrite rt_no_private.
     + cbn. rewrite !map_map. apply map_ext_in. intros p Hp. apply param_norm_eq. now apply H.
-    + intros p Hp. specialize (H p Hp). unfold param_ok in H. apply andb_true_iff in H.
-      destruct H as [H _]. now apply negb_true_iff in H.
-  - destruct r as [e|]; [|reflexivity]. cbn.
-    destruct (routes_commute_partial e Hr) as (H1 & _ & H3 & _). now rewrite H3, H1.
+    + intros p Hp. specialize (H p Hp). unfold param_ok in H. now apply negb_true_iff in H.
+  - destruct r as [e|]; reflexivity.
 Qed.
 
 (* def f(a, __b): the runtime route makes both parameters positional-only *)
@@ -229,3 +209,54 @@ Lemma def_sig_guard_inhabited :
      mkSParam 3 VarPos false (TGeneric tuple_c [TAny]); mkSParam 4 KwOnly true TAny;
      mkSParam 5 VarKw false (TGeneric dict_c [TTyped str_c; TTyped 1])].
 Proof. split; reflexivity. Qed.
+
+Lemma def_sig_full_statement_refuted :
+  ~ (forall ps, map norm_sparam (sig_from_def ps) = map norm_sparam (sig_from_runtime ps)).
+Proof. intros H. specialize (H ex_private). vm_compute in H. discriminate. Qed.
+
+(* ------------------------------------------------------------------------ *)
+(* calls: the binder of C05 applied to both signatures *)
+Require Import PV.Annot.Calls.
+Require PV.Binder.Kind PV.Binder.Sig PV.Binder.Bind.
+
+Lemma type_of_param_norm : forall l1 l2 n,
+  map norm_sparam l1 = map norm_sparam l2 -> type_of_param l1 n = type_of_param l2 n.
+Proof.
+  induction l1 as [|a l1 IH]; intros [|b l2] n H; cbn in H; try discriminate; [reflexivity|].
+  inversion H as [[Hab Hr]]. cbn.
+  assert (Hn : s_name a = s_name b).
+  { assert (E : s_name (norm_sparam a) = s_name (norm_sparam b)) by now rewrite Hab.
+    unfold norm_sparam in E. destruct (s_type a), (s_type b); exact E. }
+  rewrite Hn, Hab. destruct (N.eqb (s_name b) n); [reflexivity|]. now apply IH.
+Qed.
+
+Lemma to_binder_sig_norm : forall l, to_binder_sig (map norm_sparam l) = to_binder_sig l.
+Proof.
+  intros l. unfold to_binder_sig. rewrite map_map. apply map_ext. intros a.
+  unfold norm_sparam. destruct (s_type a); reflexivity.
+Qed.
+
+Theorem call_judged_identically_partial : forall ps raw,
+  forallb param_ok ps = true ->
+  call_in_defining_scope ps raw = call_from_importer ps raw.
+Proof.
+  intros ps raw H. unfold call_in_defining_scope, call_from_importer, judge.
+  destruct (def_sig_eq_runtime_sig_partial ps None H) as [E _].
+  rewrite <- (to_binder_sig_norm (sig_from_def ps)), <- (to_binder_sig_norm (sig_from_runtime ps)), E.
+  destruct (Bind.preprocess raw) as [a|]; [|reflexivity].
+  destruct (Bind.bind _ a) as [b|]; [|reflexivity].
+  f_equal. apply map_ext. intros x. f_equal. now apply type_of_param_norm.
+Qed.
+
+(* def f(a, __p): f(a=1, __p=2) binds in the defining scope and is rejected from an importer *)
+Lemma call_private_refuted :
+  call_in_defining_scope ex_private [Bind.RKw 1; Bind.RKw 2] <> None /\
+  call_from_importer ex_private [Bind.RKw 1; Bind.RKw 2] = None /\
+  call_in_defining_scope ex_private [Bind.RPos; Bind.RPos] = call_from_importer ex_private [Bind.RPos; Bind.RPos].
+Proof. vm_compute. repeat split. discriminate. Qed.
+
+Lemma call_example :
+  call_from_importer ex_sig [Bind.RPos; Bind.RPos; Bind.RPos; Bind.RKw 4; Bind.RKw 9] <> None /\
+  call_from_importer ex_sig [Bind.RKw 1] = None /\
+  call_from_importer ex_sig [] = None.
+Proof. vm_compute. repeat split. discriminate. Qed.
